@@ -260,7 +260,11 @@ func (s *TO2Server) Resell(ctx context.Context, guid protocol.GUID, nextOwner cr
 	// Get current owner key
 	ownerPubKey := ov.Header.Val.ManufacturerKey
 	if len(ov.Entries) > 0 {
-		ownerPubKey = ov.Entries[len(ov.Entries)-1].Payload.Val.PublicKey
+		last := len(ov.Entries) - 1
+		if ov.Entries[last].Payload == nil {
+			return ov, fmt.Errorf("voucher entry payload %d is missing", last)
+		}
+		ownerPubKey = ov.Entries[last].Payload.Val.PublicKey
 	}
 	ownerKey, _, err := s.OwnerKeys.OwnerKey(ctx, ownerPubKey.Type, ownerPubKey.RsaBits())
 	if err != nil {
